@@ -11,6 +11,7 @@ from vp import gen, probe, propmodel, refmodels as rm
 from vp import defaults
 from vp import reuse
 from vp import forms as argforms
+from vp import corners
 
 RULE = ('seeded generator: pupils (even and odd, <= grid) with FFT grids 6..48 per side (..96 thorough) of either parity, '
         '1/alpha = grid + delta (|delta| < 0.45) so the reported wavelength differs from the input one, isotropic and '
@@ -20,7 +21,7 @@ RULE = ('seeded generator: pupils (even and odd, <= grid) with FFT grids 6..48 p
 ASSUMPTIONS = ['both axes imply one propagation wavelength (isotropic dx*du, or commensurate anisotropic)',
                'pupil no larger than the FFT grid (the regime the FFT propagator supports)']
 PLAN = {'quick': {'gen': 8}, 'thorough': {'gen': 16, 'tests': 1, 'docs': 1}}
-REQUIRED_BUCKETS = ['defaults', 'reuse', 'forms', 'scratch_shape:band', 'tilted:how=3', 'tilted:how=4', 'grid:even', 'grid:odd', 'pupil:even', 'pupil:odd', 'pupil-parity!=grid-parity', 'os=1', 'os=2', 'os=3',
+REQUIRED_BUCKETS = ['defaults', 'corners', 'reuse', 'forms', 'scratch_shape:band', 'tilted:how=3', 'tilted:how=4', 'grid:even', 'grid:odd', 'pupil:even', 'pupil:odd', 'pupil-parity!=grid-parity', 'os=1', 'os=2', 'os=3',
                     'shape:none', 'shape:explicit', 'aniso', 'scratch:exact', 'scratch:larger', 'scratch:dirty',
                     'scratch:too-small', 'shape:too-large', 'tilted', 'dir:image->pupil', 'segmented', 'segmented:bbox-overlap', 'scratch:non-finite', 'canvas', 'shape:small-int', 'scalars:float32']
 REQUIRED_ANCHORS = ['anchor:_fft_shape', 'anchor:_fft2', 'anchor:_has_tilt', 'anchor:scratch_shape', 'probe:propagate_fft',
@@ -61,6 +62,7 @@ def workload(ctx, lentil):
     defaults.run(ctx, lentil, 'C09', 'fft=dft')
     reuse.run(ctx, lentil, 'C09', 'fft=dft')
     argforms.run(ctx, lentil, 'C09', 'fft=dft')
+    corners.run(ctx, lentil, 'C09', 'fft=dft')
     rng = ctx.rng
     n = ctx.count(90, 600)
     gmax = 48 if ctx.tier == 'quick' else 96
